@@ -43,12 +43,6 @@ def check(ctx):
         for k, v in c.consts.items():
             val = repo.try_fold(v, m)
             ctx.ob("R1", f"{c.short}.{k}::numeric", isinstance(val, (int, float)) and val > 0, f"{c.short}.{k} = {val!r} is not a positive number", c.loc)
-    cm = m.consts.get("CONFIG_MEMBERS")
-    ok = isinstance(cm, ast.ListComp) and ast.unparse(cm.generators[0].iter) == "dir(_GeckoConfig)"
-    if ok:
-        conds = " and ".join(ast.unparse(c) for c in cm.generators[0].ifs)
-        ok = "callable" in conds and "startswith('__')" in conds and ast.unparse(cm.elt) == ast.unparse(cm.generators[0].target)
-    ctx.ob("R1", "CONFIG_MEMBERS::computed-from-base", ok, f"CONFIG_MEMBERS is not computed from dir(_GeckoConfig) with the non-callable/non-dunder filter: `{ast.unparse(cm) if cm is not None else None}`", m.rel)
     # methods on the base class would be filtered by callable(); properties would not: none may exist
     ctx.ob("R1", "_GeckoConfig::only-data-members", not base.methods, f"_GeckoConfig has methods {sorted(base.methods)}", base.loc)
 
@@ -58,37 +52,59 @@ def check(ctx):
         raise AnalysisError("set_config_mode / config_sleep vanished")
     g = cfg_of(scm)
     ctx.ob("R2", "set_config_mode::synchronous", not scm.is_async and not any(n.suspends for n in g.nodes), "set_config_mode can suspend: sleepers could observe a half-copied table", scm.loc)
-    p = scm.node.args.args[0].arg
-    nc = [n for n in g.stmt_nodes() if isinstance(n.ast, ast.Assign) and isinstance(n.ast.value, ast.IfExp)]
-    ok = len(nc) == 1
-    if ok:
-        e = nc[0].ast.value
-        ok = ast.unparse(e.test) == p and ast.unparse(e.body) == "_GeckoActiveConfig()" and ast.unparse(e.orelse) == "_GeckoIdleConfig()"
-    ctx.ob("R1", "set_config_mode::table-chosen-by-active", ok, "the new table is not `_GeckoActiveConfig() if active else _GeckoIdleConfig()`", scm.loc)
-    copies = [(n, c) for n, c in calls_named(g, "setattr")]
-    ctx.ob("R1", "set_config_mode::copy-site", len(copies) == 1, f"{len(copies)} setattr sites", scm.loc)
-    L = None
-    for n, c in copies:
-        lp = g.loop_of(n)
-        ok = lp is not None and lp.kind == "for" and ast.unparse(lp.ast.iter) == "CONFIG_MEMBERS"
-        L = lp
-        if ok:
-            mem = ast.unparse(lp.ast.target)
-            a = [ast.unparse(x) for x in c.args]
-            src = ast.unparse(nc[0].ast.targets[0]) if nc else "?"
-            ok = a == ["GeckoConfig", mem, f"getattr({src}, {mem})"]
-            gs = [x for x in g.guards(n, entry=lp, cut_back=True) if x[0] is not lp]
-            ok = ok and not gs
-        ctx.ob("R1", "set_config_mode::copies-every-member", ok,
-               "set_config_mode does not do `for member in CONFIG_MEMBERS: setattr(GeckoConfig, member, getattr(new_config, member))` unconditionally (some settings would keep the other mode's value)", loc(scm, n.ast),
-               sample={"rule": "R1", "copy": ast.unparse(c)})
-    sr = [(n, c) for n, c in calls_named(g, "set_result")]
-    ctx.ob("R2", "set_config_mode::resolves-future", len(sr) == 1 and receiver(sr[0][1]) == "ConfigChange", "set_config_mode does not resolve the shared ConfigChange future: sleepers are not woken", scm.loc)
-    for n, c in sr:
-        ok = L is not None and n in g.reach_from(L, labels_skip=("exc",)) and n not in g.loop_body(L) and all(g.dom(L, n) for _ in [0])
-        ctx.ob("R2", "set_config_mode::wake-after-copy", ok, "sleepers are woken before the table is completely installed (they would read a mixture)", loc(scm, n.ast))
-        facts = g.guard_atoms(n)
-        ctx.ob("R2", "set_config_mode::not-done-guard", ("ConfigChange.done()", False) in facts, f"set_result not guarded by `not ConfigChange.done()` (InvalidStateError on the second switch); guards {sorted(facts)}", loc(scm, n.ast))
+    # R1/R2 by interpretation of /repo's set_config_mode on both arguments: every member of the
+    # chosen table is installed, and sleepers are woken only after the last member was copied.
+    from ..absint import ClassRef, Interp, Native, Obj, PyRaise, Undecided
+    tables_ = {}
+    for cls_, nm in ((act, True), (idle, False)):
+        tables_[nm] = {k: repo.try_fold(v, m) for k, v in cls_.consts.items()}
+        for k, v in base.consts.items():
+            tables_[nm].setdefault(k, repo.try_fold(v, m))
+    interp = Interp(repo)
+    try:
+        members = interp.eval(m.consts["CONFIG_MEMBERS"], {"__mod__": m, "__class__": None})
+    except (PyRaise, Undecided) as e:
+        raise AnalysisError(f"CONFIG_MEMBERS: {e}")
+    ctx.ob("R1", "CONFIG_MEMBERS::equals-base-members", sorted(members) == sorted(mb),
+           f"CONFIG_MEMBERS evaluates to {sorted(members)}, the base table defines {sorted(mb)}: members outside the list are never switched", m.rel,
+           sample={"rule": "R1", "CONFIG_MEMBERS": sorted(members)})
+    for active in (True, False):
+        for already_done in (False, True):
+            events = []
+            cfgobj = Obj(idle if active else act)  # start from the OTHER table
+            for k, v in tables_[not active].items():
+                cfgobj.attrs[k] = v
+            fut = Obj(None, {"done": Native(lambda a, k, d=already_done: d), "set_result": Native(lambda a, k: events.append("wake"))})
+            interp.globals = {"GeckoConfig": cfgobj, "ConfigChange": fut}
+            interp.trace = []
+            interp.steps = 0
+            orig_trace_len = 0
+            try:
+                # interleave: record wake position relative to setattr events
+                def wake(a, k):
+                    events.append(("wake", len(interp.trace)))
+                fut.attrs["set_result"] = Native(wake)
+                interp.call(scm, None, [active])
+            except PyRaise as e:
+                ctx.ob("R1", f"set_config_mode({active})::runs", False, f"set_config_mode({active}) raises {e.what}", scm.loc)
+                continue
+            except Undecided as e:
+                raise AnalysisError(f"set_config_mode: {e}")
+            key = f"set_config_mode({active})" + ("::future-done" if already_done else "")
+            wrong = {k: (cfgobj.attrs.get(k), want) for k, want in tables_[active].items() if cfgobj.attrs.get(k) != want}
+            ctx.ob("R1", f"{key}::installs-complete-table", not wrong,
+                   f"after set_config_mode({active}) these settings do not hold the {'active' if active else 'idle'} value (got, wanted): {wrong}: a mixture of both tables is in force", scm.loc,
+                   sample={"rule": "R1", "active": active, "members_written": len([t for t in interp.trace if t[0] == 'setattr'])})
+            wakes = [e for e in events if isinstance(e, tuple)]
+            if already_done:
+                ctx.ob("R2", f"{key}::no-double-resolve", not wakes, "set_result called on an already resolved future (InvalidStateError)", scm.loc)
+            else:
+                ctx.ob("R2", f"{key}::wakes-sleepers-once", len(wakes) == 1, f"set_config_mode({active}) resolves the shared future {len(wakes)} times (sleepers are not woken / woken twice)", scm.loc)
+                if wakes:
+                    n_set = len([t for t in interp.trace if t[0] == "setattr"])
+                    ctx.ob("R2", f"{key}::wake-after-copy", wakes[0][1] >= n_set,
+                           f"sleepers are woken after {wakes[0][1]} of {n_set} settings were copied: they would read a mixture", scm.loc)
+    interp.globals = {}
     glob = m.consts.get("GeckoConfig")
     ctx.ob("R1", "GeckoConfig::starts-as-complete-table", glob is not None and ast.unparse(glob) in ("_GeckoIdleConfig()", "_GeckoActiveConfig()"), "the root config is not an instance of a complete table", m.rel)
 
